@@ -334,3 +334,54 @@ func (s *sess) guardSet(t *an.Trace) (an.StateSet, bool) {
 
 // modulePrefix is the import-path prefix of the library's own packages.
 const modulePrefix = "github.com/b2broker/simplefix-go"
+
+// checkRestingSide: WaitingLogon is a state of an accepting session and WaitingLogonAnswer a state of an initiating one — the
+// Logon handler trusts that (in WaitingLogon it calls the acceptor's LogonHandler, nil on an initiator; in WaitingLogonAnswer it
+// accepts the Logon unchecked as the answer to its own). Every path of every entry point driven by the peer or by the library's
+// timers, and of Run, that ends with the state set to one of the two has tested the matching side somewhere on the path.
+func (s *sess) checkRestingSide(rule string) {
+	c := s.c
+	wl, wla := s.m.StateVals["WaitingLogon"], s.m.StateVals["WaitingLogonAnswer"]
+	n := 0
+	for _, r := range s.roots() {
+		if r.Cat == "method" && an.NameOf(r.Fn) != "Run" {
+			continue
+		}
+		reported := map[string]bool{}
+		for _, t := range s.tr.Traces(r.Fn, s.m.AllStates) {
+			side := ""
+			last := int64(-2)
+			var lastEv *an.Event
+			for i, e := range t.Events {
+				switch e.Kind {
+				case "side":
+					side = e.Name
+				case "state":
+					last, lastEv = e.To, &t.Events[i]
+				}
+			}
+			want := ""
+			switch last {
+			case wl:
+				want = "acceptor"
+			case wla:
+				want = "initiator"
+			default:
+				continue
+			}
+			n++
+			if side == want || reported[want] {
+				if side == want {
+					continue
+				}
+			}
+			if side != want {
+				reported[want] = true
+				c.Ob(rule, r.Name(), "a path that leaves the session in "+s.m.StateNames[last]+" has established the "+want+" side", lastEv.Pos).Fail(
+					"this path leaves the session in %s without having tested that it is the %s side (side on the path: %q): %s", s.m.StateNames[last], want, side,
+					map[string]string{"acceptor": "an initiating session has no LogonHandler, so the peer's next Logon calls a nil function", "initiator": "an accepting session resting in WaitingLogonAnswer accepts the next Logon unchecked, as if it were the answer to its own"}[want]+" ("+traceStr(t)+")")
+			}
+		}
+	}
+	c.Check(n >= 2, rule, "", "paths that end in WaitingLogon / WaitingLogonAnswer found", 0, fmt.Sprint(n), fmt.Sprintf("only %d such paths (anchor moved)", n))
+}
